@@ -44,6 +44,9 @@ pub struct Server {
     pub cuts: Vec<u16>,
     /// close the connection after this many reply bytes in total (None = never)
     pub truncate_after: Option<u16>,
+    /// the destination's first bytes, sent together with the final reply (a server-first protocol)
+    #[serde(default)]
+    pub trailing: Vec<u8>,
 }
 
 #[derive(Serialize, Deserialize, Debug, Clone)]
@@ -134,13 +137,15 @@ fn server_strategy() -> BoxedStrategy<Server> {
         reply_bytes(),
         prop::collection::vec(any::<u16>(), 0..4),
         prop_oneof![5 => Just(None), 2 => any::<u16>().prop_map(Some)],
+        prop_oneof![1 => Just(vec![]), 2 => prop::collection::vec(any::<u8>(), 1..48)],
     )
-        .prop_map(|(method_reply, auth_reply, reply, cuts, truncate_after)| Server {
+        .prop_map(|(method_reply, auth_reply, reply, cuts, truncate_after, trailing)| Server {
             method_reply,
             auth_reply,
             reply,
             cuts,
             truncate_after,
+            trailing,
         })
         .boxed()
 }
@@ -222,6 +227,8 @@ struct Dialogue {
     /// bytes the client wrote after the point where it must have stopped
     extra: Vec<u8>,
     replies_sent: usize,
+    /// the final reply and the destination's first bytes were sent completely
+    all_sent: bool,
 }
 
 async fn settle() {
@@ -297,11 +304,18 @@ async fn serve(mut io: DuplexStream, s: Server) -> Dialogue {
     if d.request.is_empty() {
         return d;
     }
-    if !send(&mut io, &s.reply, &s.cuts, &mut budget).await {
+    let mut last = s.reply.clone();
+    last.extend_from_slice(&s.trailing);
+    let reply_fits = budget.map_or(true, |b| b >= s.reply.len());
+    if !send(&mut io, &last, &s.cuts, &mut budget).await {
+        if reply_fits {
+            d.replies_sent = 3; // cut inside the destination's bytes, the reply itself is complete
+        }
         drop(io);
         return d;
     }
     d.replies_sent = 3;
+    d.all_sent = true;
     d.extra = drain(&mut io).await;
     // keep the connection open until the client is done
     settle().await;
@@ -540,7 +554,7 @@ impl Suite for DialogueSuite {
         "dialogue"
     }
     fn rule(&self) -> String {
-        "credentials (none / Basic pair with halves of 0-600 bytes, any UTF-8, colons in the password / tokens that are not base64(user:pass) / SNI label), standard or extended authentication (domain and user agent up to 70 000 bytes), destinations (IPv4, IPv6, names of 1-300 bytes), and a scripted in-memory server: every interesting method byte, auth status, reply code 0-9 / 0x10 / 0xff, ATYP, wrong version / reserved byte, replies cut at generated points or truncated after 0-23 bytes; make_auth and socks5_client::connect are the real ones; an independent RFC 1928/1929 + extended-format encoder says byte for byte what each client message must be (or that nothing may be sent), and the outcome must be success only for a fully received well-formed success reply after an offered method and status 0; non-trivial = a field longer than 255 bytes, a non-offered method, or a truncated reply".into()
+        "credentials (none / Basic pair with halves of 0-600 bytes, any UTF-8, colons in the password / tokens that are not base64(user:pass) / SNI label), standard or extended authentication (domain and user agent up to 70 000 bytes), destinations (IPv4, IPv6, names of 1-300 bytes), and a scripted in-memory server: every interesting method byte, auth status, reply code 0-9 / 0x10 / 0xff, ATYP, wrong version / reserved byte, replies cut at generated points or truncated after 0-23 bytes, optionally followed in the same writes by 1-47 bytes of a destination that speaks first; make_auth and socks5_client::connect are the real ones; an independent RFC 1928/1929 + extended-format encoder says byte for byte what each client message must be (or that nothing may be sent), and the outcome must be success only for a fully received well-formed success reply after an offered method and status 0, and the tunnel's stream must start with exactly the bytes the server sent behind its reply; non-trivial = a field longer than 255 bytes, a non-offered method, or a truncated reply".into()
     }
     fn strategy(&self, _: Tier) -> BoxedStrategy<Case> {
         case_strategy(false)
@@ -572,6 +586,9 @@ impl Suite for DialogueSuite {
         }
         if c.extended.is_some() {
             v.push("extended-auth");
+        }
+        if !c.server.trailing.is_empty() && !c.udp {
+            v.push("destination-speaks-first");
         }
         if long || non_offered || c.server.truncate_after.is_some() {
             v.push("nontrivial");
@@ -620,9 +637,10 @@ impl Suite for DialogueSuite {
         }
         let case = c.clone();
         let auth2 = auth.clone();
-        let (d, res) = aio::block_on_paused(async move {
+        let (d, res, after_reply) = aio::block_on_paused(async move {
+            let mut after_reply: Option<Vec<u8>> = None;
             let Ok(auth) = auth2 else {
-                return (Dialogue::default(), Res::NoDialogue("credentials".into()));
+                return (Dialogue::default(), Res::NoDialogue("credentials".into()), after_reply);
             };
             let (client, server) = tokio::io::duplex(1 << 18);
             let srv = tokio::spawn(serve(server, case.server.clone()));
@@ -641,7 +659,18 @@ impl Suite for DialogueSuite {
             let out = tokio::time::timeout(Duration::from_secs(30), connect(client, auth, req)).await;
             let res = match out {
                 Err(_) => Res::Io,
-                Ok(SocksOutcome::Tcp(io)) => {
+                Ok(SocksOutcome::Tcp(mut io)) => {
+                    // what the destination said right behind the reply must still be readable
+                    let mut got = vec![0u8; case.server.trailing.len()];
+                    let mut n = 0;
+                    while n < got.len() {
+                        match tokio::time::timeout(Duration::from_secs(5), io.read(&mut got[n..])).await {
+                            Ok(Ok(k)) if k > 0 => n += k,
+                            _ => break,
+                        }
+                    }
+                    got.truncate(n);
+                    after_reply = Some(got);
                     drop(io);
                     Res::Tcp
                 }
@@ -652,9 +681,23 @@ impl Suite for DialogueSuite {
                 Ok(SocksOutcome::ErrAuthentication(e)) => Res::Authentication(e),
             };
             let d = tokio::time::timeout(Duration::from_secs(60), srv).await.ok().and_then(|r| r.ok()).unwrap_or_default();
-            (d, res)
+            (d, res, after_reply)
         });
-        judge(c, &auth, &d, &res)
+        judge(c, &auth, &d, &res)?;
+        if let (Res::Tcp, Some(got)) = (&res, &after_reply) {
+            if d.all_sent {
+                ensure!(
+                    got == &c.server.trailing,
+                    "socks:bytes-after-reply-lost",
+                    "the server sent {} bytes right behind its success reply ({}), the tunnel's stream starts with {} bytes ({})",
+                    c.server.trailing.len(),
+                    engine::hex(&c.server.trailing[..c.server.trailing.len().min(16)]),
+                    got.len(),
+                    engine::hex(&got[..got.len().min(16)])
+                );
+            }
+        }
+        Ok(())
     }
 }
 
